@@ -102,6 +102,10 @@ def sp_part(ck: Check):
                 creal = 'syntax-error'
             except Exception as e:
                 creal = type(e).__name__
+            if kind == 'raise' and creal == val:
+                good = False
+                ck.counterexample(f'metadata-callback-raises:{val}', f'metadata({ks}) raises {val} (an internal error, not a syntax error)', {'kind': 'metadata', 'keys': ks})
+                continue
             if kind == 'raise' or val[0] != creal:
                 ck.undecided(f'metadata callback: symbolic path {kind} {val} vs concrete {creal} for keys {ks}')
                 good = False
